@@ -70,3 +70,13 @@ Example C08_example :
   counter (run (ex_events ++ [EOpDie 0; EOpDie 0])) = [] /\ tracker (run (ex_events ++ [EOpDie 0; EOpDie 0])) = [] /\
   waiting (run (ex_events ++ [EOpDie 0; EOpDie 0])) = [].
 Proof. vm_compute. repeat split; reflexivity. Qed.
+
+(* id re-use (outside wf_events, which asks for fresh ids): a view V1 dies while waiting for its base, a new view V2 of ANOTHER locked base re-uses
+   V1's id; releasing the first base must leave V2 alone, and V2 is restored when its own base is released (the history of the defect repaired
+   in /repo by 12dda7b; full statement with the intermediate states: Proofs/LockP.v, C08_id_reuse_restored) *)
+Theorem C08_id_reuse_history_restored :
+  let s := run id_reuse in
+  ops s = [] /\ counter s = [] /\ tracker s = [] /\ waiting s = [] /\ a_alive (get s 3) = true /\ a_key (get s 3) = 1 /\ a_wr (get s 3) = true /\
+  a_wr (get (run (firstn 12 id_reuse)) 3) = false /\ tracked (run (firstn 12 id_reuse)) 3 = true.
+Proof. vm_compute. repeat split; reflexivity. Qed.
+Print Assumptions C08_id_reuse_history_restored.
